@@ -64,11 +64,15 @@ def make_shard_state(rng, accounts, wc=0):
     return RCell(bits, (out_q, acc_cell, third))
 
 
-def make_block(rng, old_state_hash_cell, new_state):
-    """block#11ef55aa global_id info:^ value_flow:^ state_update:^(MERKLE_UPDATE ShardState) extra:^"""
+def make_block(rng, old_state_hash_cell, new_state, partial=False):
+    """block#11ef55aa global_id info:^ value_flow:^ state_update:^(MERKLE_UPDATE ShardState) extra:^
+    partial: the update keeps the changed part of both states and prunes the rest at level 1 (as real blocks do)."""
     info = RCell(rbits(rng, 600), [RCell(rbits(rng, 300)), RCell(rbits(rng, 100))])
     vf = RCell(rbits(rng, 400), [RCell(rbits(rng, 50))])
-    upd = merkle_update_of(pruned_of(old_state_hash_cell, 1), pruned_of(new_state, 1))
+    if partial:
+        upd = merkle_update_of(partially_pruned(rng, old_state_hash_cell, 0.5), partially_pruned(rng, new_state, 0.7))
+    else:
+        upd = merkle_update_of(pruned_of(old_state_hash_cell, 1), pruned_of(new_state, 1))
     extra = RCell(rbits(rng, 200), [RCell(rbits(rng, 30), [RCell(rbits(rng, 8))]), RCell(rbits(rng, 77))])
     bits = bytes_to_bits(bytes.fromhex('11ef55aa')) + enc_int(-239, 32)
     return RCell(bits, (info, vf, upd, extra))
@@ -101,6 +105,64 @@ def subtrees(root, avoid_special_below=True):
         for i, r in enumerate(c.refs):
             stack.append((path + (i,), r))
     return out
+
+
+def is_merkle(c):
+    return c.special and c.type in (3, 4)
+
+
+def subtrees_md(root):
+    """All (path, cell, merkle depth) below root, descending THROUGH Merkle proof/update cells (each adds one to the
+    depth of everything below it) but not below pruned-branch or library cells."""
+    out = []
+    stack = [((), root, 0)]
+    while stack:
+        path, c, d = stack.pop()
+        if path:
+            out.append((path, c, d))
+        if c.special and not is_merkle(c):
+            continue
+        nd = d + (1 if is_merkle(c) else 0)
+        for i, r in enumerate(c.refs):
+            stack.append((path + (i,), r, nd))
+    return out
+
+
+def prune_paths_md(root, paths):
+    """Level-aware pruning: a subtree at merkle depth d (d Merkle cells between it and the root) is replaced by a
+    pruned branch of level d+1, as an outer proof over a tree that already contains Merkle cells must do."""
+    paths = set(p for p in paths if not any(q != p and p[:len(q)] == q for q in paths))
+
+    def rec(c, path, d):
+        if path in paths:
+            return pruned_of(c, d + 1) if c.mask < (1 << d) else c
+        if not any(p[:len(path)] == path for p in paths):
+            return c
+        nd = d + (1 if is_merkle(c) else 0)
+        return RCell(c.bits, [rec(r, path + (i,), nd) for i, r in enumerate(c.refs)], c.special, strict=False)
+    return rec(root, (), 0)
+
+
+def partially_pruned(rng, tree, frac):
+    """The tree with a seeded subset of its ordinary subtrees replaced by level-1 pruned branches (what the author of an
+    inner Merkle proof / update leaves in it)."""
+    cand = [p for p, c, d in subtrees_md(tree) if d == 0 and not c.special and c.mask == 0]
+    return prune_paths_md(tree, [p for p in cand if rng.random() < frac])
+
+
+def random_tree_with_merkle(rng, n):
+    """An ordinary tree that embeds Merkle proof / update cells whose contents are partially pruned."""
+    def inner():
+        if rng.random() < 0.5:
+            return merkle_proof_of(partially_pruned(rng, random_tree(rng, max(2, n // 2)), rng.choice([0.2, 0.5])))
+        return merkle_update_of(partially_pruned(rng, random_tree(rng, max(2, n // 2)), rng.choice([0.2, 0.5, 1.0])),
+                                partially_pruned(rng, random_tree(rng, max(2, n // 2)), rng.choice([0.2, 0.5])))
+    mid = RCell(rbits(rng, rng.choice([0, 9, 200])), (inner(), random_tree(rng, max(1, n // 3))))
+    refs = [mid, random_tree(rng, max(1, n // 3))]
+    if rng.random() < 0.4:
+        refs.append(inner())
+    rng.shuffle(refs)
+    return RCell(rbits(rng, rng.choice([1, 33, 500])), refs)
 
 
 def rebuild(root, edits):
